@@ -688,6 +688,77 @@ impl Heap {
  ("benign-listing-strings-escaped", "src/bytecode/program.rs",
   """            ProgramObject::String(s) => write!(f, "\\"{}\\"", s),""",
   """            ProgramObject::String(s) => write!(f, "{:?}", s),"""),
+ ("benign-print-buffered-with-flush-on-drop", "src/bytecode/state.rs",
+  """pub struct Output();
+
+impl Output {
+    pub fn new() -> Self { Output() }
+}
+
+impl std::fmt::Write for Output {
+    fn write_str(&mut self, s: &str) -> std::fmt::Result {
+        match std::io::stdout().write_all(s.as_bytes()) {
+            Ok(_) => Ok(()),
+            Err(_) => Err(std::fmt::Error),
+        }
+    }
+}""",
+  """// Printed text is collected and handed to stdout in pieces of 8 KiB; whatever is left goes out
+// when the value is dropped - at the end of a run, on an interpreter error, and while a panic
+// unwinds.
+pub struct Output(String);
+
+impl Output {
+    pub fn new() -> Self { Output(String::new()) }
+    fn hand_over(&mut self) -> std::io::Result<()> {
+        let mut out = std::io::stdout();
+        out.write_all(self.0.as_bytes())?;
+        self.0.clear();
+        out.flush()
+    }
+}
+
+impl Drop for Output {
+    fn drop(&mut self) {
+        let _ = self.hand_over();
+    }
+}
+
+impl std::fmt::Write for Output {
+    fn write_str(&mut self, s: &str) -> std::fmt::Result {
+        self.0.push_str(s);
+        if self.0.len() >= 8192 {
+            return self.hand_over().map_err(|_| std::fmt::Error);
+        }
+        Ok(())
+    }
+}"""),
+ ("benign-compile-sniffs-the-ast-format", "src/main.rs",
+  """        let input_serializer = self.selected_input_format()
+            .expect("Cannot derive input format from file path. Consider setting it explicitly.");
+        let output_serializer = self.selected_output_format();
+
+        let source = source.into_string()
+            .expect("Error reading input file");
+        let ast = input_serializer.deserialize(&source)
+            .expect("Error parsing AST from input file");""",
+  """        let output_serializer = self.selected_output_format();
+
+        let source = source.into_string()
+            .expect("Error reading input file");
+        // without a format on the command line or in the file name the text decides: whichever
+        // of the three formats reads it (a note goes to stderr, stdout may be carrying the image)
+        let ast = match self.selected_input_format() {
+            Some(input_serializer) => input_serializer.deserialize(&source)
+                .expect("Error parsing AST from input file"),
+            None => {
+                eprintln!("note: no input format given, trying json, lisp, yaml");
+                [ASTSerializer::JSON, ASTSerializer::LISP, ASTSerializer::YAML].iter()
+                    .filter_map(|candidate| candidate.deserialize(&source).ok())
+                    .next()
+                    .expect("Cannot derive input format from file path or content. Consider setting it explicitly.")
+            }
+        };"""),
  ("benign-yaml-written-with-document-end", "src/main.rs",
   """            ASTSerializer::YAML  => serde_yaml::to_string(&ast)?,""",
   """            ASTSerializer::YAML  => format!("{}\n...", serde_yaml::to_string(&ast)?.trim_end()),"""),
